@@ -14,7 +14,8 @@
 //!    "obs":[[f,pc,stack,locals,frames],..]  f = 0-based position in "fns"; the first element is
 //!    the state before the first step; a finished process is [-1,-1,stack,locals,0];
 //!    "truncated": true when the run was longer than "keep"}
-//! A Send's Deliver action is dropped (nobody receives here) and a Spawn is answered with a pid at
+//! A Send's Deliver action is dropped (nobody receives here) unless it is addressed to the program's
+//! own process (`42 .`: delivered to its mailbox as the worker would) and a Spawn is answered with a pid at
 //! once (`notify_spawn`, no child runs), so both instructions complete and are observed; a program
 //! that awaits a process or requests an effect leaves the sync path: the trace ends there
 //! ("async"); what was recorded up to that point is still a valid prefix.
@@ -111,6 +112,13 @@ fn trace_program(j: &J) -> J {
             None => {}
             // the message leaves this executor (nobody receives it here); the sender has already
             // completed its Send and goes on
+            // ... unless it is addressed to this very process (`42 .`): then do what the worker and
+            // the environment do together (extract, route back, notify_message)
+            Some(quiver_core::Action::Deliver { target: 0, value }) => {
+                if let Ok((message, heap)) = ex.extract_heap_data(&value) {
+                    let _ = ex.notify_message(0, message, heap);
+                }
+            }
             Some(quiver_core::Action::Deliver { .. }) => {}
             // what the worker does when the environment answers a Spawn: hand the caller a pid
             // (no child runs here); the caller's Spawn instruction completes
